@@ -21,7 +21,7 @@ DEFAULT_CFG = dict(
     save_every=None, shift=0.0,
 )
 
-TARGETS = {"gauss": targets.ll_gauss, "bimodal": targets.ll_bimodal, "flat": targets.ll_flat, "unequal": targets.ll_unequal, "hole": targets.ll_hole, "sliver": targets.ll_sliver, "weak": targets.ll_weak}
+TARGETS = {"gauss": targets.ll_gauss, "bimodal": targets.ll_bimodal, "flat": targets.ll_flat, "unequal": targets.ll_unequal, "hole": targets.ll_hole, "sharp": targets.ll_sharp, "sliver": targets.ll_sliver, "weak": targets.ll_weak}
 PRIORS = {"affine": targets.pt_affine, "nonlinear": targets.pt_nonlinear, "identity": targets.pt_identity}
 BOUNDARY = {"none": (None, None), "per0": ([0], None), "ref1": (None, [1]), "per0ref1": ([0], [1]), "ref0": (None, [0]), "per1": ([1], None)}
 
